@@ -1,6 +1,7 @@
 //! vcheck — bounded exhaustive exploration of keepsimple1/mdns-sd (see /verif/DESIGN.md).
 mod c01;
 mod c02;
+mod c06;
 mod c07;
 mod fw;
 mod indep;
@@ -20,6 +21,7 @@ fn main() {
     let code = match id {
         "C01" => c01::check(tier),
         "C02" => c02::check(tier),
+        "C06" => c06::check(tier),
         "C07" => c07::check(tier),
         _ => {
             eprintln!("unknown check {id}");
